@@ -162,7 +162,11 @@ func (a *FuncAction) Exec(ctx context.Context, bs Bindings, props StepProps) (*E
 
 	exe, err := a.F(ctx, bs, props)
 
-	if Exp_PermanentBindings {
+	if Exp_PermanentBindings && exe != nil && exe.Bs != nil {
+		// Only restore when bindings were actually returned: a
+		// failed action returns no Execution, and a guard that
+		// returns nil bindings has rejected (which we must not
+		// turn into an acceptance).
 		for p, v := range permanent {
 			exe.Bs[p] = v
 		}
